@@ -1222,4 +1222,152 @@ theorem admissible_unique_of_gap (o : Norm) (pdim m : Nat) (pts : List (Pt ℝ))
   · rw [map_sort_key, List.map_take, map_sort_key, key, List.take_left']
     rw [(sortVals_perm false _).length_eq]; simp [hlen]
 
+/-! ## selections computed from perturbed (rounded) distances (pass 10) -/
+
+/-- pigeonhole core of the robustness of a `topk` selection: if `idx` (`kk` distinct positions `< n`) is "least" for a relation
+that never puts a non-low position before a low one, and there are exactly `kk` low positions, then `idx` IS the low set -/
+theorem topk_low_set {n kk : Nat} {idx : List Nat} (low : Nat → Prop) [DecidablePred low] (rel : Nat → Nat → Prop)
+    (hlen : idx.length = kk) (hnd : idx.Nodup) (hin : ∀ i ∈ idx, i < n)
+    (hleast : ∀ i ∈ idx, ∀ j, j < n → j ∉ idx → rel i j)
+    (hsep : ∀ i j, i < n → j < n → ¬ low i → low j → ¬ rel i j)
+    (hcount : ((List.range n).filter (fun i => decide (low i))).length = kk) :
+    ∀ i, i < n → (i ∈ idx ↔ low i) := by
+  set Low := (List.range n).filter (fun i => decide (low i)) with hLow
+  have hLnd : Low.Nodup := List.Nodup.filter _ List.nodup_range
+  have hmemL : ∀ j, j ∈ Low ↔ j < n ∧ low j := by
+    intro j; simp [hLow]
+  have hsub : ∀ i ∈ idx, i ∈ Low := by
+    intro i hi
+    by_contra hnot
+    have hnl : ¬ low i := fun hl => hnot ((hmemL i).2 ⟨hin i hi, hl⟩)
+    -- some low position is outside idx, otherwise i :: Low fits into idx
+    have : ∃ j ∈ Low, j ∉ idx := by
+      by_contra hall
+      have hall : ∀ x ∈ Low, x ∈ idx := fun x hx => by
+        by_contra hx'; exact hall ⟨x, hx, hx'⟩
+      have hnd' : (i :: Low).Nodup := List.nodup_cons.2 ⟨hnot, hLnd⟩
+      have hss : (i :: Low) ⊆ idx := by
+        intro x hx
+        rcases List.mem_cons.1 hx with rfl | hx
+        · exact hi
+        · exact hall x hx
+      have := (List.subperm_of_subset hnd' hss).length_le
+      simp only [List.length_cons] at this
+      omega
+    obtain ⟨j, hjL, hjn⟩ := this
+    have hj := (hmemL j).1 hjL
+    exact hsep i j (hin i hi) hj.1 hnl hj.2 (hleast i hi j hj.1 hjn)
+  have hperm : idx.Perm Low :=
+    (List.subperm_of_subset hnd hsub).perm_of_length_le (by omega)
+  intro i hi
+  rw [hperm.mem_iff, hmemL]
+  exact ⟨fun h => h.2, fun h => ⟨hi, h⟩⟩
+
+/-- "low" side of a threshold `t` in the direction selected by `largest` -/
+def lowSide (lg : Bool) (t x : ℝ) : Prop := ordRel lg x t
+
+noncomputable instance (lg : Bool) (t x : ℝ) : Decidable (lowSide lg t x) := by unfold lowSide ordRel; infer_instance
+
+/-- **a `topk` selection is robust to perturbed values**: `vals'` (what the float code computed) within `δ` of the exact `vals`,
+every exact value either on the low side of a threshold `t` or beyond `t` by more than `2δ`, exactly `kk` values on the low side.
+Then any valid (unsorted) `topk` answer on the PERTURBED values is exactly the set of positions on the low side. -/
+theorem TopkSpecU.robust {lg : Bool} {vals vals' : List ℝ} {kk : Nat} {idx : List Nat} {δ t : ℝ}
+    (hlen : vals'.length = vals.length)
+    (hδ : ∀ i, i < vals.length → |vals'.getD i 0 - vals.getD i 0| ≤ δ)
+    (hband : ∀ i, i < vals.length → lowSide lg t (vals.getD i 0) ∨
+      (if lg then vals.getD i 0 < t - 2 * δ else t + 2 * δ < vals.getD i 0))
+    (hcount : ((List.range vals.length).filter fun i => decide (lowSide lg t (vals.getD i 0))).length = kk)
+    (h : TopkSpecU (ordRel lg) vals' kk idx) :
+    ∀ i, i < vals.length → (i ∈ idx ↔ lowSide lg t (vals.getD i 0)) := by
+  apply topk_low_set (n := vals.length) (fun i => lowSide lg t (vals.getD i 0))
+    (fun i j => ordRel lg (vals'.getD i 0) (vals'.getD j 0)) h.len h.nodup (fun i hi => hlen ▸ h.inb i hi)
+    (fun i hi j hj hn => h.least i hi j (hlen ▸ hj) hn) ?_ hcount
+  intro i j hi hj hni hlj hrel
+  have hi' := abs_le.1 (hδ i hi)
+  have hj' := abs_le.1 (hδ j hj)
+  have hb := (hband i hi).resolve_left hni
+  cases lg
+  · simp only [lowSide, ordRel, Bool.false_eq_true, if_false] at hlj hrel hb
+    linarith [hi'.1, hj'.2]
+  · simp only [lowSide, ordRel, if_true] at hlj hrel hb
+    linarith [hi'.2, hj'.1]
+
+
+/-- two valid selections on (differently) perturbed values pick the same positions -/
+theorem TopkSpecU.robust_perm {lg : Bool} {vals v1 v2 : List ℝ} {kk : Nat} {i1 i2 : List Nat} {δ t : ℝ}
+    (hl1 : v1.length = vals.length) (hl2 : v2.length = vals.length)
+    (hδ1 : ∀ i, i < vals.length → |v1.getD i 0 - vals.getD i 0| ≤ δ)
+    (hδ2 : ∀ i, i < vals.length → |v2.getD i 0 - vals.getD i 0| ≤ δ)
+    (hband : ∀ i, i < vals.length → lowSide lg t (vals.getD i 0) ∨
+      (if lg then vals.getD i 0 < t - 2 * δ else t + 2 * δ < vals.getD i 0))
+    (hcount : ((List.range vals.length).filter fun i => decide (lowSide lg t (vals.getD i 0))).length = kk)
+    (h1 : TopkSpecU (ordRel lg) v1 kk i1) (h2 : TopkSpecU (ordRel lg) v2 kk i2) : i1.Perm i2 := by
+  rw [List.perm_ext_iff_of_nodup h1.nodup h2.nodup]
+  intro a
+  have r1 := TopkSpecU.robust hl1 hδ1 hband hcount h1
+  have r2 := TopkSpecU.robust hl2 hδ2 hband hcount h2
+  constructor
+  · intro ha
+    have hlt : a < vals.length := hl1 ▸ h1.inb a ha
+    exact (r2 a hlt).2 ((r1 a hlt).1 ha)
+  · intro ha
+    have hlt : a < vals.length := hl2 ▸ h2.inb a ha
+    exact (r1 a hlt).2 ((r2 a hlt).1 ha)
+
+/-- `nbr_filter`'s mask computed from perturbed distances: outside the band `|d − r| ≤ δ` it is the exact mask -/
+theorem nbrMask_robust (o : Norm) (pdim : Nat) (r δ : ℝ) (n : ℤ) (pts : List (Pt ℝ)) (d' : Pt ℝ → Pt ℝ → ℝ)
+    (hδ : ∀ p ∈ pts, ∀ q ∈ pts, |d' p q - pdist o pdim p q| ≤ δ)
+    (hband : ∀ p ∈ pts, ∀ q ∈ pts, δ < |pdist o pdim p q - r|) :
+    (pts.map fun p => decide (n ≤ (pts.countP (fun q => decide (d' p q ≤ r)) : ℤ) - 1)) = nbrMask o pdim r n pts := by
+  unfold nbrMask nbrCount
+  apply List.map_congr_left
+  intro p hp
+  have : pts.countP (fun q => decide (d' p q ≤ r)) = pts.countP (within o pdim r p) := by
+    apply List.countP_congr
+    intro q hq
+    have h1 := abs_le.1 (hδ p hp q hq)
+    have h2 := hband p hp q hq
+    simp only [within, le_real, decide_eq_true_eq]
+    constructor
+    · intro h
+      by_contra hc
+      have hc := not_le.1 hc
+      rw [abs_of_pos (by linarith)] at h2
+      linarith [h1.1]
+    · intro h
+      by_contra hc
+      have hc := not_le.1 hc
+      rw [abs_of_nonpos (by linarith)] at h2
+      linarith [h1.2]
+  rw [this]
+
+
+theorem map_dist_getD (f : Pt ℝ → ℝ) (pts : List (Pt ℝ)) (j : Nat) (hj : j < pts.length) :
+    (pts.map f).getD j 0 = f (pts.getD j []) := by
+  rw [List.getD_eq_getElem (pts.map f) 0 (n := j) (by simpa using hj), List.getD_eq_getElem pts [] (n := j) hj]
+  simp
+
+
+/-- a truncating conversion is robust: `y'` within `δ` of `y ≥ 0`, `y` farther than `δ` from every integer → same integer -/
+theorem trunc_robust (tr : ℝ → Int) (htr : ∀ x : ℝ, 0 ≤ x → (tr x : ℝ) ≤ x ∧ x < (tr x : ℝ) + 1)
+    (y y' δ : ℝ) (hy : 0 ≤ y) (hδ : |y' - y| ≤ δ) (hband : ∀ z : ℤ, δ < |y - (z : ℝ)|) : tr y' = tr y := by
+  obtain ⟨h1, h2⟩ := htr y hy
+  have hd := abs_le.1 hδ
+  have ha := hband (tr y)
+  rw [abs_of_nonneg (by linarith)] at ha
+  have hb := hband (tr y + 1)
+  rw [Int.cast_add, Int.cast_one, abs_of_neg (by linarith)] at hb
+  have ha0 : (0 : ℝ) ≤ (tr y : ℝ) := by
+    have : (-1 : ℝ) < (tr y : ℝ) := by linarith
+    have : (-1 : ℤ) < tr y := by exact_mod_cast this
+    have : (0 : ℤ) ≤ tr y := by omega
+    exact_mod_cast this
+  have hy' : 0 ≤ y' := by linarith [hd.1]
+  obtain ⟨g1, g2⟩ := htr y' hy'
+  have e1 : (tr y' : ℝ) < (tr y : ℝ) + 1 := by linarith [hd.2]
+  have e2 : (tr y : ℝ) < (tr y' : ℝ) + 1 := by linarith [hd.1]
+  have e1' : tr y' < tr y + 1 := by exact_mod_cast e1
+  have e2' : tr y < tr y' + 1 := by exact_mod_cast e2
+  omega
+
 end PP.Cloud
